@@ -147,6 +147,9 @@ def detectencoding_str(input, final=False):
     # if this is the last call, and we haven't determined an encoding yet,
     # we default to UTF-8
     if final:
+        if li >= 2 and candidates & CANDIDATE_UTF_16_AS_LE:
+            # only "\xff\xfe" (+ "\x00") and no more data: that is a UTF-16 BOM, not UTF-8
+            return ("utf-16", True)
         return ("utf-8", False)
     return (None, False)  # dont' know yet
 
